@@ -38,4 +38,128 @@ def CROSSCHECK():
             return ("ok", length_of_homopolymer(inp["ref"], inp["start"], inp["step"], inp["threshold"]), {})
         except Exception as e:      # noqa: BLE001
             return ("raise", type(e).__name__)
-    return [Case("length_of_homopolymer", gen, real, n=150)]
+    def gen_bc(rng):
+        d = {}
+        for _ in range(rng.randint(1, 5)):
+            d[(rng.randint(0, 2), rng.randint(0, 1))] = rng.randint(0, 4) * 10
+        if not any(d.values()):
+            d[(0, 0)] = 7
+        return dict(var=d)
+
+    def real_bc(inp):
+        from whatshap.cli.haplotagphase import best_candidate
+        try:
+            return ("ok", tuple(best_candidate(dict(inp["var"]))), {})
+        except Exception as e:      # noqa: BLE001
+            return ("raise", type(e).__name__)
+
+    def cmp_bc(expected, got):
+        e, g = expected[1], got[1]
+        return e[0] == g[0] and e[1] == g[1] and e[3] == g[3] and abs(e[2] - g[2]) < 1e-12
+    return [Case("length_of_homopolymer", gen, real, n=150), Case("best_candidate", gen_bc, real_bc, n=120, compare=cmp_bc)]
+
+
+# ------------------------------------------------------------------------------------------------ compute_votes
+# The quality-weighted votes per (variant position, phase set, haplotype).  Ghost vocabulary, fixed functions of the input (defined by recurrences that hold
+# for the running sums of any finite sequence of reads):
+#   VALID(k)                read k carries usable tags: PS_tag >= 1 and HP_tag in {1, 2}
+#   CONTRIB(k, j, p, s, b)  the quality of variant j of read k if that read is VALID, tagged with phase set s + 1, the variant lies at position p, p is not
+#                           homozygous, and (HP_tag - 1) xor (index of the variant's allele at p) == b; 0 otherwise
+#   W(k, j, p, s, b)        sum of CONTRIB over all variants of the VALID reads < k and variants < j of read k
+# Postcondition = the statement's "quality-weighted votes per (phase set, haplotype)": every entry votes[p][(s, b)] equals W over the whole input, and a
+# non-zero W has an entry.
+import z3  # noqa: E402
+
+R.declare_class("Read", {"PS_tag": INT, "HP_tag": INT, "variants": LIST(REF("Variant"))})
+R.declare_class("Variant", {"position": INT, "allele": INT, "quality": INT})
+R.iter_fields["Read"] = "variants"
+KEY = TUPLE(INT, INT)
+VOTES = DICT(INT, DICT(KEY, INT))
+W = z3.Function("VOTE_W", *([z3.IntSort()] * 6))
+CONTRIB = z3.Function("VOTE_CONTRIB", *([z3.IntSort()] * 6))
+
+
+def _read(eng, st, k):
+    return VRef("Read", st.env["reads"].arr[k])
+
+
+def _variant(eng, st, k, j):
+    vs = eng.load_field_raw(st, _read(eng, st, k), "variants")
+    return VRef("Variant", vs.arr[j]), vs.len
+
+
+@R.spec
+def VOTEDEFS(eng, st):
+    k, j, p, s, b = z3.Ints(" ".join(fresh_name(x) for x in "kjpsb"))
+    reads = st.env["reads"]
+    rd = _read(eng, st, k)
+    v, nv = _variant(eng, st, k, j)
+    ps = to_z3(eng.load_field_raw(st, rd, "PS_tag")) - 1
+    ht = to_z3(eng.load_field_raw(st, rd, "HP_tag")) - 1
+    pos, al, q = (to_z3(eng.load_field_raw(st, v, f)) for f in ("position", "allele", "quality"))
+    hom, a2i = st.env["is_homozygous"], st.env["allele_to_id"]
+    inner = from_z3(a2i.map[pos], a2i.val)
+    idx = inner.map[al]
+    valid = z3.And(ps >= 0, ht >= 0, ht <= 1)
+    hit = z3.And(valid, ps == s, pos == p, z3.Not(hom.map[pos]), z3.If(ht == idx, 0, 1) == b)
+    ink = z3.And(0 <= k, k < reads.len)
+    return [
+        z3.ForAll([k, j, p, s, b], z3.Implies(z3.And(ink, 0 <= j, j < nv), CONTRIB(k, j, p, s, b) == z3.If(hit, q, 0)), patterns=[CONTRIB(k, j, p, s, b)]),
+        z3.ForAll([p, s, b], W(0, 0, p, s, b) == 0, patterns=[W(0, 0, p, s, b)]),
+        z3.ForAll([k, j, p, s, b], z3.Implies(z3.And(ink, 0 <= j, j < nv), W(k, j + 1, p, s, b) == W(k, j, p, s, b) + CONTRIB(k, j, p, s, b)), patterns=[W(k, j, p, s, b)]),
+        # a read without usable tags is skipped as a whole (its variants are never looked at)
+        z3.ForAll([k, p, s, b], z3.Implies(ink, W(k + 1, 0, p, s, b) == z3.If(valid, W(k, nv, p, s, b), W(k, 0, p, s, b))), patterns=[W(k + 1, 0, p, s, b)]),
+    ]
+
+
+@R.spec
+def w(eng, st, k, j, p, s, b):
+    return W(to_z3(k), to_z3(j), to_z3(p), to_z3(s), to_z3(b))
+
+
+_INPUT = [
+    ("reads-valid", "forall(k, implies(0 <= k and k < len(reads), reads[k] is not None and forall(j, implies(0 <= j and j < len(reads[k].variants), reads[k].variants[j] is not None))))"),
+    ("positions-known", "forall(k, j, implies(0 <= k and k < len(reads) and 0 <= j and j < len(reads[k].variants), reads[k].variants[j].position in is_homozygous and "
+                        "implies(not is_homozygous[reads[k].variants[j].position], reads[k].variants[j].position in allele_to_id and "
+                        "reads[k].variants[j].allele in allele_to_id[reads[k].variants[j].position] and "
+                        "0 <= allele_to_id[reads[k].variants[j].position][reads[k].variants[j].allele] and allele_to_id[reads[k].variants[j].position][reads[k].variants[j].allele] <= 1)))"),
+    ("definitions", "VOTEDEFS()"),
+]
+_SUMS = ("forall(p, s, b, implies(p in votes and (s, b) in votes[p], votes[p][(s, b)] == w({k}, {j}, p, s, b))) and "
+         "forall(p, s, b, implies(w({k}, {j}, p, s, b) != 0, p in votes and (s, b) in votes[p]))")
+_PAIRED = ("forall(p, s, implies(p in votes, ((s, 0) in votes[p]) == ((s, 1) in votes[p]))) and "
+           "forall(p, s, b, implies(p in votes and (s, b) in votes[p], b == 0 or b == 1))")
+
+R.contract(
+    "compute_votes", params={"is_homozygous": DICT(INT, BOOL), "reads": LIST(REF("Read")), "allele_to_id": DICT(INT, DICT(INT, INT))}, returns=VOTES,
+    requires=_INPUT,
+    ensures=[("votes-are-the-quality-sums", _SUMS.format(k="len(reads)", j="0").replace("votes", "result"))],
+    locals={"votes": VOTES, "ps": INT, "ht": INT, "number_of_skipped": INT, "variant": REF("Variant"), "read": REF("Read")},
+    loops={0: dict(index="ri", inv=[("sums", _SUMS.format(k="ri", j="0")), ("both-haplotypes-entered-together", _PAIRED)]),
+           1: dict(index="vi", inv=[("sums", _SUMS.format(k="ri", j="vi")), ("both-haplotypes-entered-together", _PAIRED), ("tags", "ps == read.PS_tag - 1 and ht == read.HP_tag - 1 and 0 <= ps and 0 <= ht and ht <= 1 and read is reads[ri]")])},
+    props=["C17"])
+
+
+def canary_votes():
+    import copy
+    c = copy.copy(R.contracts["compute_votes"])
+    c.ensures = [("wrong", "forall(p, s, b, implies(p in result and (s, b) in result[p], result[p][(s, b)] == w(len(reads), 0, p, s, 1 - b)))")]     # haplotypes exchanged
+    return c
+
+
+R.canaries.append(("haplotagphase.py:canary#votes-for-the-other-haplotype", canary_votes))
+
+
+# ------------------------------------------------------------------------------------------------ best_candidate
+# The winner of a vote: a key of the dict whose score no other key's score exceeds, together with that score and its share of the total.
+R.contract(
+    "best_candidate", params={"var": DICT(KEY, INT)}, returns=TUPLE(INT, INT, REAL, INT),
+    requires=[("scores-are-not-negative", "forall(a, b, implies((a, b) in var, var[(a, b)] >= 0))"), ("some-score-is-positive", "exists(a, b, (a, b) in var and var[(a, b)] > 0)")],
+    ensures=[("winner-is-a-candidate-with-that-score", "(result[1], result[0]) in var and var[(result[1], result[0])] == result[3]"),
+             ("no-candidate-scores-higher", "forall(a, b, implies((a, b) in var, var[(a, b)] <= result[3]))"),
+             ("share-of-the-total", "result[2] >= 0 and result[2] <= 1")],
+    extra={"sum_lemmas": True},
+    props=["C17"])
+
+from vcgen.builtins_model import sum_domination_lemma  # noqa: E402
+R.lemmas.append(("haplotagphase.py:L#a-sum-of-non-negative-terms-dominates-each-term", ["C17"], sum_domination_lemma))
